@@ -147,6 +147,15 @@ def finish(out: Outcome, level, checker_cmd, explanation=None, extra_cov=None):
     known_keys = [k["key"] for k in listed]
     kf_obs = [o for o in out.obligations if not o["ok"] and any(k in o["name"] for k in known_keys)]
     out.obligations = [o for o in out.obligations if o not in kf_obs]
+    standin = []
+    if level == "proof":
+        # a proof-level claim counts only obligations discharged by a deductive back end; bounded / syntactic stand-ins that ran in the
+        # same check (bounded GEN harnesses, inventory comparison, native enumeration) are reported separately and never counted as proved
+        def deductive(o):
+            b = o["backend"]
+            return (b.startswith("Kani") or b.startswith("Verus")) and o["kind"] not in ("gen-bounded",)
+        standin = [o for o in out.obligations if not deductive(o)]
+        out.obligations = [o for o in out.obligations if deductive(o)]
     n_ob = len(out.obligations)
     n_ok = sum(1 for o in out.obligations if o["ok"])
     cov = {
@@ -165,6 +174,10 @@ def finish(out: Outcome, level, checker_cmd, explanation=None, extra_cov=None):
         "rule": "one obligation per (declaration, generated function or lemma, kind); distinct by name",
         "notes": out.notes,
     }
+    if level == "proof":
+        cov["standin_obligations"] = len(standin)
+        cov["standin_discharged"] = sum(1 for o in standin if o["ok"])
+        cov["standin_by_backend"] = _count(standin, "backend")
     cov.update(out.extra)
     if extra_cov:
         cov.update(extra_cov)
@@ -189,6 +202,9 @@ def finish(out: Outcome, level, checker_cmd, explanation=None, extra_cov=None):
         return 1
     if n_ob == 0:
         print(f"[{out.prop}] no obligations were generated: broken check", file=sys.stderr)
+        return 2
+    if standin and not all(o["ok"] for o in standin) and not new_viol and not (len(out.violations) - len(new_viol)):
+        print(f"[{out.prop}] a stand-in obligation failed without a recorded violation: broken check", file=sys.stderr)
         return 2
     return 0
 
